@@ -1848,7 +1848,7 @@ def run(chk, only=None):
                 continue
             if name in NESTED and not thorough and opname not in NESTED_QUICK_OPS:
                 continue
-            lay = LAYOUTS if thorough else ["slice", chk.rng.choice(LAYOUTS[:3])]
+            lay = LAYOUTS if thorough else (["slice"] if name in NESTED or name in RECT else ["slice", chk.rng.choice(LAYOUTS[:3])])
             for layout in lay:
                 cases.append(("op", name, opname, layout))
     for name, (g, layouts) in UTILS.items():
@@ -1864,7 +1864,9 @@ def run(chk, only=None):
         elif name in NESTED:
             dl = [(d, "contig") for d in ("add_jitter", "plus_diag", "mul_const", "mT")] + [(chk.rng.choice(derivs), "slice")]
         else:
-            dl = [(d, "contig") for d in derivs]
+            core = ["add_jitter", "add_diagonal_one_elem", "add_diagonal_full", "plus_constdiag", "plus_diag", "mul_const", "matmul_self",
+                    "mT", "getitem_full", "rebuild", "detach", "identity_same_object", "root_of"]
+            dl = [(d, "contig") for d in core] + [(d, "slice") for d in chk.rng.sample([x for x in derivs if x not in core], 2)]
         for d, lay in dl:
             cases.append(("hist", name, d, lay))
     if only:
